@@ -67,6 +67,10 @@ func NewPAT(patBytes []byte) (PAT, error) {
 		if err != nil {
 			return nil, err
 		}
+		if len(patBytes) < 13 {
+			// the adaptation field leaves too little payload for a PAT
+			return nil, gots.ErrInvalidPATLength
+		}
 	}
 
 	return pat(patBytes), nil
